@@ -20,6 +20,6 @@ for c in "$@"; do
   out=$(timeout 1500 ${VERIF_BIN:-/verif/bin/verif} check $c 2>&1); rc=$?
   git -C /repo checkout -- . ; git -C /repo clean -fdq
   echo "-- check $c exit=$rc"
-  echo "$out" | grep -E "^VIOLATION|^  class|^KNOWN-FINDING|^C[0-9]+ (quick|thorough)" | cut -c1-400 | head -12
+  echo "$out" | grep -E "^VIOLATION|^  class|^C[0-9]+ (quick|thorough)" | cut -c1-300 | head -7
 done
 git -C /repo status --short | head -3
